@@ -28,6 +28,9 @@ def load(libdir):
     return rebound
 
 
+WRONG_PAIRS = []      # filled by the loop correspondence runs (library-only identity check)
+
+
 def gen_outs(rng, n):
     style = rng.random()
     outs = []
@@ -87,17 +90,25 @@ def correspondence(ctx, rebound):
     # ---------- (a) resolve loop with arbitrary outcomes, (b) search + shuffle
     nloop = ctx.scale(400, 4000)
     loop_terms, loop_info, search_terms, search_info = [], [], [], []
+    wrong_pairs = WRONG_PAIRS
     for k in range(nloop):
         tree = rng.random() < 0.4
         line = (not tree) and rng.random() < 0.2
         cfg = L.gen_cluster(rng, tree=tree, line=line)
         cfg["keep"] = 1 if rng.random() < (0.2 if tree else 0.5) else 0
+        cfg["nact"] = -1 if rng.random() < 0.6 else rng.randint(0, cfg["N"])
         full, simA = L.record_all(rebound, cfg)
         outs = gen_outs(rng, len(full))
         log, fin, simB = L.record_outcomes(rebound, cfg, outs)
         ids = [1000 + i for i in range(cfg["N"])]
-        loop_terms.append("(%s, %s, %s, %s, %s, %s, %s)" % (bstr(tree), bstr(cfg["keep"]), L.zl(ids), L.entries(full),
-                                                           L.zl(outs), L.events(log), L.idps(fin)))
+        loop_terms.append("(%s, %s, (%d)%%Z, %s, %s, %s, %s, %s, (%d)%%Z)" % (
+            bstr(tree), bstr(cfg["keep"]), cfg["nact"], L.zl(ids), L.entries(full), L.zl(outs), L.events(log), L.idps(fin),
+            simB.N_active))
+        # library-only: every identity pair handed to resolve must be one of the pairs the search found
+        found = set((a[3], a[4], a[2]) for a in full)
+        wrong = [a for a in log if (a[3], a[4], a[2]) not in found]
+        if wrong and not (tree and cfg["keep"]):
+            wrong_pairs.append((cfg, outs[:len(log)], wrong[0]))
         loop_info.append(dict(cfg=cfg, outs=outs[:len(log)], pending=len(full)))
         nrem = sum((o & 1) + ((o >> 1) & 1) for *_, o in log)
         key = ("loop", cfg["mode"], cfg["keep"], cfg["periodic"], cfg["N"], min(len(full), 40) // 4, min(nrem, 6))
@@ -129,12 +140,14 @@ def correspondence(ctx, rebound):
     for k in range(nm):
         cfg = L.gen_cluster(rng, tree=False)
         cfg["keep"] = rng.randrange(2)
+        cfg["nact"] = -1 if rng.random() < 0.6 else rng.randint(0, cfg["N"])
         if rng.random() < 0.1:
             cfg["t"] = 0.0          # last_collision == t guard: nothing merges
         log, cbs, sim = L.run_merge(rebound, cfg)
-        exp = "(%s, %s, %s)" % (L.events(log), L.zl(L.hashes(sim)), fl(L.state(sim)))
-        term = "merge_search %s %s (%d)%%Z %s %s %s" % (bstr(cfg["keep"]), box_args(cfg, sim), cfg["seed"], vlib.fhex(cfg["t"]),
-                                                     fl(cbs), L.particles(cfg))
+        exp = "(%s, %s, %s)" % (L.events(log), L.zl(L.hashes(sim) + [sim.N_active]),
+                                fl(L.state(sim) + [sim.max_radius[0], sim.max_radius[1]]))
+        term = "merge_search %s (%d)%%Z %s (%d)%%Z %s %s %s" % (bstr(cfg["keep"]), cfg["nact"], box_args(cfg, sim), cfg["seed"],
+                                                              vlib.fhex(cfg["t"]), fl(cbs), L.particles(cfg))
         mterms.append("(%s, %s)" % (term, exp))
         minfo.append(cfg)
         ctx.case(key=("merge", cfg["keep"], cfg["periodic"], cfg["N"], len(cbs)), nontrivial=len(log) > 0)
@@ -472,6 +485,39 @@ def search_stale_radius_regression(ctx, rebound, fails):
                                    "(1000,1001) in the next step, DIRECT reports it" % res["tree"][2:5])))
 
 
+def wrong_pair_key(cfg):
+    moved = cfg.get("nact", -1) > 0 and not cfg["keep"] and not cfg["tree"]
+    return "resolve:wrong_pair" + (":N_active" if moved else "")
+
+
+def search_nactive_regression(ctx, rebound, fails):
+    """fixed input: 5 spheres on a line, (0,1) and (2,3) overlap, 4 is far away, N_active = 3, keep_sorted = 0, no tree,
+    merge resolver.  When (1,0) is resolved first, removing the active particle 1 moves particle 2 into slot 1 and particle 4
+    into slot 2; the pending entry (2,3) is not renumbered and the far-away particle 4 is merged with particle 3."""
+    clib = rebound.clibrebound
+    f = clib.reb_collision_resolve_merge
+    f.argtypes = [ctypes.POINTER(rebound.Simulation), rebound.simulation.CollisionS]
+    f.restype = ctypes.c_int
+    cfg = dict(N=5, periodic=False, box=8.0, x=[0.0, 0.5, 10.0, 10.5, 50.0], y=[0.0] * 5, z=[0.0] * 5, vx=[0.0] * 5, vy=[0.0] * 5,
+               vz=[0.0] * 5, m=[1.0] * 5, r=[0.4] * 5, tree=False, keep=0, mode="direct", seed=4, t=1.0, dt=0.01, nact=3)
+    for seed in range(1, 9):
+        cfg["seed"] = seed
+        sim = L.make_sim(rebound, cfg)
+        handed = []
+        def cb(sp, c, handed=handed):
+            s = sp.contents
+            handed.append(frozenset((s.particles[c.p1].hash.value, s.particles[c.p2].hash.value)))
+            return f(sp, c)
+        L.search(rebound, sim, cb)
+        ctx.evaluations += 1
+        bad = [sorted(h) for h in handed if h not in (frozenset((1000, 1001)), frozenset((1002, 1003)))]
+        if bad:
+            fails.append((wrong_pair_key(cfg), dict(kind="merge", cfg=cfg_replay(cfg),
+                          problem="ids %s handed to the merge resolver although they do not overlap; final x = %s"
+                                  % (bad[0], [round(sim.particles[i].x, 3) for i in range(sim.N)]))))
+            return
+
+
 # ================================================================================================ entry point
 def run(ctx):
     libdir = ctx.lib()
@@ -481,6 +527,10 @@ def run(ctx):
     corr_ok = correspondence(ctx, rebound)
     ctx.log("correspondence done")
     fails = []
+    for cfg, outs, ev in WRONG_PAIRS[:50]:
+        fails.append((wrong_pair_key(cfg), dict(kind="loop", cfg=cfg_replay(cfg), outcomes=outs,
+                      problem="callback received (p1,p2,gb,hash1,hash2,outcome) = %s: an identity pair the search never reported" % (ev,))))
+    search_nactive_regression(ctx, rebound, fails)
     search_linetree_regression(ctx, rebound, fails)
     search_stale_radius_regression(ctx, rebound, fails)
     search_detection(ctx, rebound, fails)
